@@ -6,18 +6,31 @@
    object entries in order); [marshal]/[unmarshal] model json.Marshal / json.Unmarshal-into-a-zero-value for
    the struct tables [src_tables] that srcfacts read from value.go, expr.go, environment.go and
    schema/schema.go on this run.  [n] is fuel: both functions return [Fuel], never [Ok], when it is too
-   small, and [clean]/[wellformed] are false then, so no statement below is about a truncated computation.
+   small, and [clean]/[tidy]/[wellformed] are false then, so no statement below is about a truncated computation.
    [top] = a plain json.Unmarshal call (no UseNumber).
    [wellformed] = typed according to the tables, maps key-sorted, ints in range, boolean schemas carry nothing
    else, slices/maps stored in an interface are non-nil (the evaluator builds them with make).
-   The known-finding classes (decidable, disjoint causes; [in_known_class] is their union):
+   The known-finding classes (decidable, one per cause):
      kf_nonfinite      a json.Number whose text is not a JSON number ("+Inf", "NaN", "-Inf" from YAML .inf/.nan)
-     kf_any_number     a number stored in an `any` field whose decoder does not call UseNumber (Expr.Literal)
-     kf_empty_omitted  a non-nil empty slice/map in an omitempty field (Expr.List/Object/KeyRanges of [] and {})
+     kf_any_number     a number stored in an `any` field whose decoder does not call UseNumber (Expr.Literal before
+                       the repair: Expr now has an UnmarshalJSON that calls UseNumber, see C18_expr_number_repaired)
+     kf_empty_omitted  the WIDE class: a non-nil empty slice/map in any omitempty field.  The tables have 18 such
+                       fields (C18_empty_fields_count); json.Marshal drops the field and it comes back nil
+     kf_empty_lossy    the part of it that LOSES INFORMATION: the 5 fields [lossy_fields] in which being nil is a
+                       value of its own (Expr.List/Object/Interpolate/Symbol select the alternative of the Expr
+                       union, Interpolation.Value tells a reference from text).  In the other 13 fields the code
+                       only takes len, ranges, indexes or looks up, which cannot tell nil from empty
      kf_non_utf8       a string or map key that is not valid UTF-8 (fn::fromBase64 output)
-   [clean] = well-formed and in none of them. *)
+   [in_known_class] = nonfinite, any_number, empty_omitted (wide), non_utf8;
+   [in_lossy_class] = nonfinite, any_number, empty_lossy (narrow), non_utf8.
+   [clean] = well-formed and outside [in_known_class]: comes back identical (C18_roundtrip).
+   [tidy]  = well-formed and outside [in_lossy_class] (C18_lossy_classes_cover): clean except for non-nil empty
+             collections in the 13 harmless fields.
+   [nilify n t v] = v with every non-nil empty slice/map held by an omitempty field replaced by nil, at any depth.
+   A tidy value comes back as [nilify v] (C18_roundtrip_tidy), which is clean (C18_nilify_clean); nilify is the
+   identity on clean values (C18_nilify_id), and v and nilify v have the same JSON (C18_nilify_same_json). *)
 From Verif Require Import Base.Bytes Model.ApiJson Src.SrcApiJson
-  Proofs.ApiJsonBase Proofs.ApiJsonProofs Proofs.ApiJsonSrc.
+  Proofs.ApiJsonBase Proofs.ApiJsonProofs Proofs.ApiJsonTidy Proofs.ApiJsonSrc.
 Open Scope string_scope.
 
 (* ---- side conditions tying the extracted tables to what the proofs assume (by computation) ---- *)
@@ -55,31 +68,90 @@ Proof.
   exact (fun n v W K => roundtrip_clean src_tables src_tables_ok n top _ v (in_known_class_false _ _ _ _ _ W K)).
 Qed.
 
+(* ---- round trip up to nil-for-empty where it does not matter ---- *)
+(* a tidy value comes back with its harmless non-nil empty collections turned into nil, and nothing else changed *)
+Theorem C18_roundtrip_tidy : forall n c t v,
+  tidy src_tables n c t v = true ->
+  exists j, marshal src_tables n t v = Ok j /\ unmarshal src_tables n c t j = Ok (nilify src_tables n t v).
+Proof. exact (roundtrip_tidy src_tables src_tables_ok). Qed.
+
+(* what comes back is clean ... *)
+Theorem C18_nilify_clean : forall n c t v,
+  tidy src_tables n c t v = true -> clean src_tables n c t (nilify src_tables n t v) = true.
+Proof. exact (nilify_clean src_tables). Qed.
+
+(* ... is v itself when v is clean ... *)
+Theorem C18_nilify_id : forall n c t v, clean src_tables n c t v = true -> nilify src_tables n t v = v.
+Proof. exact (nilify_id src_tables). Qed.
+
+(* ... and has the JSON document of v (json.Marshal drops an omitted empty collection, nil or not) *)
+Theorem C18_nilify_same_json : forall p n c t v,
+  okp src_tables p n c t v = true -> marshal src_tables n t (nilify src_tables n t v) = marshal src_tables n t v.
+Proof. exact (nilify_marshal src_tables). Qed.
+
+(* clean values are tidy, tidy values are well-formed *)
+Theorem C18_clean_tidy : forall n c t v, clean src_tables n c t v = true -> tidy src_tables n c t v = true.
+Proof. exact (clean_tidy src_tables). Qed.
+
+Theorem C18_tidy_wellformed : forall n c t v, tidy src_tables n c t v = true -> wellformed src_tables n c t v = true.
+Proof. exact (tidy_wellformed src_tables). Qed.
+
+(* with the excluded classes spelled out, the narrow ones: well-formed and outside every class that loses
+   information *)
 Theorem C18_expr_roundtrip_partial : forall n v,
   wellformed src_tables n top (TNamed "Expr") v = true ->
-  in_known_class src_tables n top (TNamed "Expr") v = false ->
+  in_lossy_class src_tables n top (TNamed "Expr") v = false ->
   exists j, marshal src_tables n (TNamed "Expr") v = Ok j
-            /\ unmarshal src_tables n top (TNamed "Expr") j = Ok v.
-Proof.
-  exact (fun n v W K => roundtrip_clean src_tables src_tables_ok n top _ v (in_known_class_false _ _ _ _ _ W K)).
-Qed.
+            /\ unmarshal src_tables n top (TNamed "Expr") j = Ok (nilify src_tables n (TNamed "Expr") v).
+Proof. exact (fun n v W K => roundtrip_lossless src_tables src_tables_ok n top _ v W K). Qed.
 
 Theorem C18_environment_roundtrip_partial : forall n v,
   wellformed src_tables n top (TNamed "Environment") v = true ->
-  in_known_class src_tables n top (TNamed "Environment") v = false ->
+  in_lossy_class src_tables n top (TNamed "Environment") v = false ->
   exists j, marshal src_tables n (TNamed "Environment") v = Ok j
-            /\ unmarshal src_tables n top (TNamed "Environment") j = Ok v.
-Proof.
-  exact (fun n v W K => roundtrip_clean src_tables src_tables_ok n top _ v (in_known_class_false _ _ _ _ _ W K)).
-Qed.
+            /\ unmarshal src_tables n top (TNamed "Environment") j = Ok (nilify src_tables n (TNamed "Environment") v).
+Proof. exact (fun n v W K => roundtrip_lossless src_tables src_tables_ok n top _ v W K). Qed.
 
-(* the four classes are exactly the gap between well-formed and clean *)
+Theorem C18_value_roundtrip_partial : forall n v,
+  wellformed src_tables n top (TNamed "Value") v = true ->
+  in_lossy_class src_tables n top (TNamed "Value") v = false ->
+  exists j, marshal src_tables n (TNamed "Value") v = Ok j
+            /\ unmarshal src_tables n top (TNamed "Value") j = Ok (nilify src_tables n (TNamed "Value") v).
+Proof. exact (fun n v W K => roundtrip_lossless src_tables src_tables_ok n top _ v W K). Qed.
+
+Theorem C18_schema_roundtrip_partial : forall n v,
+  wellformed src_tables n top (TNamed "Schema") v = true ->
+  in_lossy_class src_tables n top (TNamed "Schema") v = false ->
+  exists j, marshal src_tables n (TNamed "Schema") v = Ok j
+            /\ unmarshal src_tables n top (TNamed "Schema") j = Ok (nilify src_tables n (TNamed "Schema") v).
+Proof. exact (fun n v W K => roundtrip_lossless src_tables src_tables_ok n top _ v W K). Qed.
+
+(* the four classes (with the wide empty class) are exactly the gap between well-formed and clean *)
 Theorem C18_known_classes_cover : forall n c t v,
   wellformed src_tables n c t v = true ->
   kf_nonfinite src_tables n c t v = false -> kf_any_number src_tables n c t v = false ->
   kf_empty_omitted src_tables n c t v = false -> kf_non_utf8 src_tables n c t v = false ->
   clean src_tables n c t v = true.
 Proof. exact (known_classes_cover src_tables). Qed.
+
+(* the four classes that lose information (with the narrow empty class) are exactly the gap between well-formed
+   and tidy *)
+Theorem C18_lossy_classes_cover : forall n c t v,
+  wellformed src_tables n c t v = true ->
+  kf_nonfinite src_tables n c t v = false -> kf_any_number src_tables n c t v = false ->
+  kf_empty_lossy src_tables n c t v = false -> kf_non_utf8 src_tables n c t v = false ->
+  tidy src_tables n c t v = true.
+Proof. exact (lossy_classes_cover src_tables). Qed.
+
+(* the omitempty slice/map fields of the tables, as (struct, Go field): there are 18; exactly 5 of them are
+   [lossy_field]s; and the hard-coded list [lossy_fields] (5 entries) names only fields of that list, so it cannot
+   drift from the tables unnoticed *)
+Theorem C18_empty_fields_count :
+  length (omitempty_collections src_tables) = 18%nat
+  /\ length (filter (fun q => lossy_field (fst q) (snd q)) (omitempty_collections src_tables)) = 5%nat
+  /\ length lossy_fields = 5%nat
+  /\ forallb (fun q => existsb (pair_eqb q) (omitempty_collections src_tables)) lossy_fields = true.
+Proof. exact empty_fields_count. Qed.
 
 (* serialisability: json.Marshal can fail only because of class kf_nonfinite (whatever else is wrong) *)
 Theorem C18_serialisable : forall p, p_number p = false -> forall n c t v,
@@ -124,21 +196,33 @@ Theorem C18_nonfinite_refuted :
   /\ marshal src_tables 12 (TNamed "Value") w_nonfinite = Err.
 Proof. exact nonfinite_refuted. Qed.
 
-(* Expr{Literal: json.Number("12345678901234567890")}: read back as a float64 — as long as Expr has no decoder
-   that calls UseNumber (the hypothesis is computed from the source; it is true today) *)
-Theorem C18_expr_number_refuted :
-  keeps_numbers src_tables "Expr" = false ->
-  wellformed src_tables 12 top (TNamed "Expr") w_expr_number = true
-  /\ kf_any_number src_tables 12 top (TNamed "Expr") w_expr_number = true
-  /\ exists j v', marshal src_tables 12 (TNamed "Expr") w_expr_number = Ok j
-                  /\ unmarshal src_tables 12 top (TNamed "Expr") j = Ok v'
-                  /\ gval_eqb true w_expr_number v' = false.
-Proof. exact expr_number_refuted. Qed.
+(* Expr{Literal: json.Number("12345678901234567890")} was read back as a float64.  Repaired in the source of this
+   run: Expr's decoder calls UseNumber (computed from the source), and the witness is clean and round-trips.
+   This statement stops compiling if the repair is reverted. *)
+Theorem C18_expr_number_repaired :
+  keeps_numbers src_tables "Expr" = true
+  /\ clean src_tables 12 top (TNamed "Expr") w_expr_number = true
+  /\ roundtrips src_tables 12 (TNamed "Expr") w_expr_number = true.
+Proof. exact expr_number_repaired. Qed.
 
-(* Expr{List: []Expr{}} (the literal []): read back with List == nil, i.e. as a null literal *)
+(* the finding itself, on the tables of this run with Expr's custom decoder removed ([tables_without_usenumber],
+   i.e. the code before the repair): the same value is well-formed, in kf_any_number, and comes back different
+   even when any float64 is allowed to match any float64 *)
+Theorem C18_expr_number_refuted_without_usenumber :
+  keeps_numbers tables_without_usenumber "Expr" = false
+  /\ wellformed tables_without_usenumber 12 top (TNamed "Expr") w_expr_number = true
+  /\ kf_any_number tables_without_usenumber 12 top (TNamed "Expr") w_expr_number = true
+  /\ exists j v', marshal tables_without_usenumber 12 (TNamed "Expr") w_expr_number = Ok j
+                  /\ unmarshal tables_without_usenumber 12 top (TNamed "Expr") j = Ok v'
+                  /\ gval_eqb true w_expr_number v' = false.
+Proof. exact expr_number_refuted_without_usenumber. Qed.
+
+(* Expr{List: []Expr{}} (the literal []): read back with List == nil, i.e. as a null literal; in the wide and in
+   the narrow empty class *)
 Theorem C18_empty_list_refuted :
   wellformed src_tables 12 top (TNamed "Expr") w_empty_list = true
   /\ kf_empty_omitted src_tables 12 top (TNamed "Expr") w_empty_list = true
+  /\ kf_empty_lossy src_tables 12 top (TNamed "Expr") w_empty_list = true
   /\ exists j, marshal src_tables 12 (TNamed "Expr") w_empty_list = Ok j
                /\ unmarshal src_tables 12 top (TNamed "Expr") j = Ok (mk "Expr" [("Range", rng "env"); ("List", GNil)]).
 Proof. exact empty_list_refuted. Qed.
@@ -166,3 +250,19 @@ Proof. exact sample_expr_clean. Qed.
 Example C18_example_environment : clean src_tables 24 top (TNamed "Environment") sample_env = true
   /\ roundtrips src_tables 24 (TNamed "Environment") sample_env = true.
 Proof. exact (conj sample_env_clean eq_refl). Qed.
+
+(* an Environment with Properties = {} (non-nil), an Expr with KeyRanges = {} and a Schema with required = [] and
+   properties = {}: tidy but not clean, in the wide empty class and not in the narrow one, comes back as its nilified
+   form [harmless_env_nil], which differs from it *)
+Example C18_example_harmless_empties :
+  tidy src_tables 12 top (TNamed "Environment") harmless_env = true
+  /\ clean src_tables 12 top (TNamed "Environment") harmless_env = false
+  /\ kf_empty_omitted src_tables 12 top (TNamed "Environment") harmless_env = true
+  /\ kf_empty_lossy src_tables 12 top (TNamed "Environment") harmless_env = false
+  /\ in_lossy_class src_tables 12 top (TNamed "Environment") harmless_env = false
+  /\ (exists j, marshal src_tables 12 (TNamed "Environment") harmless_env = Ok j
+                /\ unmarshal src_tables 12 top (TNamed "Environment") j
+                   = Ok (nilify src_tables 12 (TNamed "Environment") harmless_env))
+  /\ nilify src_tables 12 (TNamed "Environment") harmless_env = harmless_env_nil
+  /\ gval_eqb false harmless_env (nilify src_tables 12 (TNamed "Environment") harmless_env) = false.
+Proof. exact harmless_empties. Qed.
